@@ -91,7 +91,7 @@ fn specs() -> Vec<Spec> {
         s("FROM_UTF8(FROM_BASE64URL(TO_BASE64URL(TO_UTF8", "FROM_UTF8(FROM_BASE64URL(TO_BASE64URL(TO_UTF8({0}))))", &[Str]),
         s("TO_HEX(HMAC_SHA256(TO_UTF8", "TO_HEX(HMAC_SHA256(TO_UTF8({0}), TO_UTF8({1})))", &[Str, Short]), s("TO_HEX(HMAC_MD5(TO_UTF8", "TO_HEX(HMAC_MD5(TO_UTF8({0}), TO_UTF8({1})))", &[Str, Short]),
         s("TO_HEX(HMAC_SHA1(TO_UTF8", "TO_HEX(HMAC_SHA1(TO_UTF8({0}), TO_UTF8({1})))", &[Str, Short]), s("TO_HEX(HMAC_SHA512(TO_UTF8", "TO_HEX(HMAC_SHA512(TO_UTF8({0}), TO_UTF8({1})))", &[Str, Short]),
-        s("TO_HEX(TO_BIG_ENDIAN_64", "TO_HEX(TO_BIG_ENDIAN_64({0}))", &[Int]), s("TO_HEX(TO_BIG_ENDIAN_32", "TO_HEX(TO_BIG_ENDIAN_32({0}))", &[SmallInt]), s("FROM_BIG_ENDIAN_64(TO_BIG_ENDIAN_64", "FROM_BIG_ENDIAN_64(TO_BIG_ENDIAN_64({0}))", &[Int]),
+        s("TO_HEX(TO_BIG_ENDIAN_64", "TO_HEX(TO_BIG_ENDIAN_64({0}))", &[Int]), s("FROM_BIG_ENDIAN_64(TO_BIG_ENDIAN_64", "FROM_BIG_ENDIAN_64(TO_BIG_ENDIAN_64({0}))", &[Int]),
         s("TO_HEX(TO_IEEE754_64", "TO_HEX(TO_IEEE754_64({0}))", &[F]), s("FROM_IEEE754_64(TO_IEEE754_64", "FROM_IEEE754_64(TO_IEEE754_64({0}))", &[F]),
         s("BITWISE_AND", "BITWISE_AND({0}, {1})", &[Int, Int]), s("BITWISE_OR", "BITWISE_OR({0}, {1})", &[Int, Int]), s("BITWISE_XOR", "BITWISE_XOR({0}, {1})", &[Int, Int]), s("BITWISE_NOT", "BITWISE_NOT({0})", &[Int]),
         s("BIT_COUNT", "BIT_COUNT({0}, {1})", &[Int, Bits]), s("BITWISE_LEFT_SHIFT", "BITWISE_LEFT_SHIFT({0}, {1})", &[Int, Shift]), s("BITWISE_RIGHT_SHIFT", "BITWISE_RIGHT_SHIFT({0}, {1})", &[Int, Shift]),
@@ -122,7 +122,7 @@ fn pool(rng: &mut Rng, a: A) -> Cell {
         Digits => Cell::S(rng.pick(&["79927398713", "79927398710", "0", "00", "4111111111111111", "1234567812345678", "", "12a4", "１２３", "18", "59"]).to_string()),
         BaseStr => Cell::S(rng.pick(&["0", "1", "10", "ff", "FF", "zz", "-10", "7fffffffffffffff", "8000000000000000", "-8000000000000000", "1010", "12", "g", "", " 1", "+5", "9223372036854775807", "9223372036854775808"]).to_string()),
         Hex => Cell::S(rng.pick(&["", "61", "6162", "C3BC", "e697a5", "F09F9880", "6", "zz", "0061"]).to_string()),
-        Date => Cell::Date(*rng.pick(&[0i32, -1, 1, 59, 60, 365, 366, 10957, 11016, 11017, 11382, 18262, 18321, 18322, 18628, 19358, 19722, 19723, 20088, -25567, -719162, 2932896, 17896, 17897, 17531, 16800, 16801, 18992, 18993, 19083, 19144])),
+        Date => Cell::Date(*rng.pick(&[0i32, -1, 1, 59, 60, 365, 366, 10957, 11016, 11017, 11382, 18262, 18321, 18322, 18628, 19358, 19722, 19723, 20088, -25567, -141427, 47482, 17896, 17897, 17531, 16800, 16801, 18992, 18993, 19083, 19144])),
         IsoDate => Cell::S(rng.pick(&["2020-02-29", "2021-02-29", "1970-01-01", "2000-12-31", "0001-01-01", "9999-12-31", "2020-13-01", "2020-00-10", "2020-1-1", "20200101", "2020-W01-1", "2020-W53-7", "", "abc"]).to_string()),
         Pattern => Cell::S(rng.pick(&["a", "b+", "[a-c]+", "^a", "c$", "(a)(b)?", "\\d+", "[A-Z][a-z]+", "o", "a|b", "x*", ".", "l+", "(\\w+) (\\w+)", "^$", "[^a-z]"]).to_string()),
         Repl => Cell::S(rng.pick(&["", "X", "$1", "[$0]", "-", "$1$1"]).to_string()),
@@ -289,7 +289,9 @@ pub fn run_c36(tier: Tier, seed: u64) -> i32 {
                 let want_err = v["want"] == "error";
                 let panicked = out["err"].as_str().map(|s| s.starts_with("PANIC")).unwrap_or(false);
                 let kind = if panicked { "panic" } else if want_err { "value-where-error-documented" } else if got_err { "error-where-value-documented" } else if args.iter().any(|c| c.is_null()) { "null-handling" } else { "wrong-value" };
-                let sig = format!("{}:{}:{}", sp.sql.split('(').next().unwrap_or(sp.sql), kind, path);
+                // one signature per (outermost function of the call shape, kind of deviation)
+                // one signature per (call shape, kind of deviation, class of the argument tuple)
+                let sig = format!("{}:{}:{}", sp.model, kind, tuple_tag(kind, args));
                 rep.fail(
                     &sig,
                     &format!("{} with {} [{} path] :: engine {} , documented {} ({})", sp.sql, args.iter().map(|c| c.sql()).collect::<Vec<_>>().join(", "), path, out, v["want"], v["why"].as_str().unwrap_or("")),
@@ -315,6 +317,51 @@ pub fn run_c36(tier: Tier, seed: u64) -> i32 {
     rep.floor(by_fn.len() * 10 >= specs.len() * 6, "fewer than 60% of the call shapes produced judged observations");
     rep.assumptions.push("the Python model encodes the documented Trino behaviour; where documentation and stdlib cannot decide (ties not exactly representable, NaN ordering, Unicode whitespace, URL/JSON-path forms outside a common subset) the model declines and the observation is not judged".into());
     rep.finish()
+}
+
+/// Coarse class of one argument: enough to tell a recorded deviation (say,
+/// SUBSTR with a negative start on a non-ASCII string) from a new one on
+/// ordinary arguments.
+fn arg_class(c: &Cell) -> &'static str {
+    match c {
+        Cell::Null => "null",
+        Cell::Int(0) => "zero",
+        Cell::Int(i) if *i < 0 => "neg",
+        Cell::Int(i) if *i < 64 => "small",
+        Cell::Int(_) => "big",
+        Cell::F(f) if f.is_nan() => "nan",
+        Cell::F(f) if f.is_infinite() => "inf",
+        Cell::F(f) if *f == 0.0 => "fzero",
+        Cell::F(f) if *f < 0.0 => "fneg",
+        Cell::F(_) => "fpos",
+        Cell::S(s) if s.is_empty() => "empty",
+        Cell::S(s) if s.is_ascii() => "ascii",
+        Cell::S(_) => "nonascii",
+        Cell::Date(_) => "date",
+        Cell::Bool(true) => "true",
+        Cell::Bool(false) => "false",
+    }
+}
+
+/// One tag for the argument tuple, so that a recorded deviation on unusual
+/// arguments does not hide a new one on ordinary arguments: position of the
+/// first NULL for NULL handling; for wrong values the most unusual trait
+/// present (non-ASCII text, non-finite or negative or zero numbers, empty
+/// text), else `plain`.
+fn tuple_tag(kind: &str, args: &[Cell]) -> String {
+    if kind == "null-handling" {
+        return format!("arg{}", args.iter().position(|c| c.is_null()).unwrap_or(0));
+    }
+    if kind != "wrong-value" {
+        return "any".into();
+    }
+    let cls: Vec<&str> = args.iter().map(arg_class).collect();
+    for t in ["nonascii", "nan", "inf", "neg", "fneg", "zero", "fzero", "empty", "big"] {
+        if cls.contains(&t) {
+            return t.into();
+        }
+    }
+    "plain".into()
 }
 
 fn is_unbound(out: &Value) -> bool {
